@@ -133,6 +133,28 @@ Fixpoint chunks_fuel {A} (fuel : nat) (n : nat) (l : list A) : list (list A) :=
   end.
 Definition chunks {A} (n : nat) (l : list A) : list (list A) := chunks_fuel (length l) n l.
 
+(* the value a successful decode of [enc t v] yields: heaps come back sorted *)
+Fixpoint canon (t : ty) (v : val) {struct t} : val :=
+  match t, v with
+  | TOption t', VSome v' => VSome (canon t' v')
+  | TResult t' _, VOk v' => VOk (canon t' v')
+  | TResult _ e, VErr v' => VErr (canon e v')
+  | TColl k _ t', VSeq l =>
+      let l' := map (canon t') l in
+      VSeq (match k with CHeap => sort_vals l' | _ => l' end)
+  | TArray _ t', VSeq l => VSeq (map (canon t') l)
+  | TPair a b, VPair x y => VPair (canon a x) (canon b y)
+  | TBox _ t', _ => canon t' v
+  | TEnum vs, VVar k v' => VVar k (canon_vars vs k v')
+  | _, _ => v
+  end
+with canon_vars (vs : variants) (k : nat) (v : val) {struct vs} : val :=
+  match vs, k with
+  | VsNil, _ => v
+  | VsCons _ t _, O => canon t v
+  | VsCons _ _ r, S k' => canon_vars r k' v
+  end.
+
 (* ------------------------------------------------------------------ *)
 (* well-formed values of a type (what rustc's type checker and the containers'
    invariants guarantee) *)
@@ -167,8 +189,8 @@ Fixpoint wf (t : ty) (v : val) {struct t} : bool :=
   | TColl k sz t', VSeq l =>
       forallb (wf t') l && (N.of_nat (length l) <=? u32max) &&
       match k with
-      | CSet => strictly_sorted false l
-      | CMap => strictly_sorted true l
+      | CSet => strictly_sorted false (map (canon t') l)
+      | CMap => strictly_sorted true (map (canon t') l)
       | _ => true
       end
   | TStr, VSeq l =>
@@ -369,24 +391,3 @@ with dec_vars (vs : variants) (b : N) (k : nat) : prog val :=
       if b =? i mod 256 then v <- dec t ;; Ret (VVar k v) else dec_vars r b (S k)
   end.
 
-(* the value a successful decode of [enc t v] yields: heaps come back sorted *)
-Fixpoint canon (t : ty) (v : val) {struct t} : val :=
-  match t, v with
-  | TOption t', VSome v' => VSome (canon t' v')
-  | TResult t' _, VOk v' => VOk (canon t' v')
-  | TResult _ e, VErr v' => VErr (canon e v')
-  | TColl k _ t', VSeq l =>
-      let l' := map (canon t') l in
-      VSeq (match k with CHeap => sort_vals l' | _ => l' end)
-  | TArray _ t', VSeq l => VSeq (map (canon t') l)
-  | TPair a b, VPair x y => VPair (canon a x) (canon b y)
-  | TBox _ t', _ => canon t' v
-  | TEnum vs, VVar k v' => VVar k (canon_vars vs k v')
-  | _, _ => v
-  end
-with canon_vars (vs : variants) (k : nat) (v : val) {struct vs} : val :=
-  match vs, k with
-  | VsNil, _ => v
-  | VsCons _ t _, O => canon t v
-  | VsCons _ _ r, S k' => canon_vars r k' v
-  end.
